@@ -1,6 +1,20 @@
 // K-SKETCH: contracts of CountMinSketch::{increment, estimate, reset, clear} (std and no_std build) on the
 // real closure-using bodies.  These are the contracts unit V-TLFU assumes (external_body) in Verus.
 // Bounded in row width (2, 4 or 8 counters); complete in the hash, the seeds and the counter contents.
+// Non-blocking check: Kani's `assert!` assumes its condition afterwards, so the first failing conjunct of a contract
+// would hide every later one on the same path (and with it the verdicts of the other properties that harness serves).
+// `ck!` performs the check on a nondeterministically chosen side branch, so every conjunct is reported independently.
+macro_rules! ck {
+    ($c:expr, $m:literal) => {
+        if kani::any::<bool>() {
+            assert!($c, $m);
+        }
+    };
+    ($c:expr) => {
+        assert!($c)
+    };
+}
+
 use super::*;
 use crate::lfu::tinylfu::sketch::CountMinRow;
 use alloc::vec::Vec;
@@ -66,11 +80,11 @@ pub fn positions(s: &CountMinSketch, h: u64) -> [usize; 4] {
             if i < v.width && v.c[r][i] != 0 {
                 hits += 1;
                 p[r] = i;
-                assert!(v.c[r][i] == 1, "[C11.sketch] one increment of a zero sketch raises a counter to exactly 1");
+                ck!(v.c[r][i] == 1, "[C11.sketch] one increment of a zero sketch raises a counter to exactly 1");
             }
             i += 1;
         }
-        assert!(hits == 1, "[C11.sketch] increment touches exactly one counter per row, inside the row");
+        ck!(hits == 1, "[C11.sketch] increment touches exactly one counter per row, inside the row");
         r += 1;
     }
     p
@@ -92,14 +106,14 @@ fn sketch_increment() {
     kani::cover!(h == 0, "sketch increment: hash 0");
     s.increment(h);
     let post = view(&s);
-    assert!(post.width == pre.width, "[C11.sketch] increment keeps the sketch's shape");
+    ck!(post.width == pre.width, "[C11.sketch] increment keeps the sketch's shape");
     let mut r = 0;
     while r < 4 {
         let mut i = 0;
         while i < 2 * MAXBYTES {
             if i < pre.width {
                 let want = if i == p[r] { sat15(pre.c[r][i]) } else { pre.c[r][i] };
-                assert!(post.c[r][i] == want, "[C11.sketch][C11.bump] increment adds one (saturating at 15) to counter pos_r(h) of every row and leaves EVERY other counter unchanged");
+                ck!(post.c[r][i] == want, "[C11.sketch][C11.bump] increment adds one (saturating at 15) to counter pos_r(h) of every row and leaves EVERY other counter unchanged");
             }
             i += 1;
         }
@@ -124,13 +138,13 @@ fn sketch_estimate() {
         }
         r += 1;
     }
-    assert!(e == m as u64 && e <= 15, "[C11.sketch][C11.min] estimate is the minimum over the four rows of counter pos_r(h), at most 15");
+    ck!(e == m as u64 && e <= 15, "[C11.sketch][C11.min] estimate is the minimum over the four rows of counter pos_r(h), at most 15");
     let post = view(&s);
     let mut r = 0;
     while r < 4 {
         let mut i = 0;
         while i < 2 * MAXBYTES {
-            assert!(post.c[r][i] == pre.c[r][i], "[C11.sketch][C13.readonly] estimate does not change the sketch");
+            ck!(post.c[r][i] == pre.c[r][i], "[C11.sketch][C13.readonly] estimate does not change the sketch");
             i += 1;
         }
         r += 1;
@@ -146,14 +160,14 @@ fn sketch_reset_clear() {
     kani::cover!(!clear && pre.c[3][1] == 15 && pre.c[3][0] == 1, "sketch reset: odd and saturated neighbours");
     if clear { s.clear() } else { s.reset() }
     let post = view(&s);
-    assert!(post.width == pre.width, "[C11.sketch] reset/clear keep the sketch's shape");
+    ck!(post.width == pre.width, "[C11.sketch] reset/clear keep the sketch's shape");
     let mut r = 0;
     while r < 4 {
         let mut i = 0;
         while i < 2 * MAXBYTES {
             if i < pre.width {
                 let want = if clear { 0 } else { pre.c[r][i] / 2 };
-                assert!(post.c[r][i] == want, "[C11.sketch][C11.halve] reset halves every counter (rounding down, no bleed between neighbours); clear zeroes every counter");
+                ck!(post.c[r][i] == want, "[C11.sketch][C11.halve] reset halves every counter (rounding down, no bleed between neighbours); clear zeroes every counter");
             }
             i += 1;
         }
@@ -167,7 +181,7 @@ fn sketch_reset_clear() {
 fn row_halving_mask_all_bytes() {
     let b: u8 = kani::any();
     let h = (b >> 1) & 0x77;
-    assert!((h & 0x0f) == (b & 0x0f) / 2 && (h >> 4) == (b >> 4) / 2, "[C11.halve] (b >> 1) & 0x77 halves both nibbles of every byte");
+    ck!((h & 0x0f) == (b & 0x0f) / 2 && (h >> 4) == (b >> 4) / 2, "[C11.halve] (b >> 1) & 0x77 halves both nibbles of every byte");
 }
 
 
@@ -183,15 +197,15 @@ fn sketch_new_small_sizes() {
     match CountMinSketch::new(size) {
         Ok(mut s) => {
             let v = view(&s);
-            assert!(size >= 1 && v.width >= 2 && (v.width & (v.width - 1)) == 0 && v.width as u64 >= size, "[C05.ctor][C11.width] every accepted size gives a power-of-two number (>= 2, >= size) of counters per row");
+            ck!(size >= 1 && v.width >= 2 && (v.width & (v.width - 1)) == 0 && v.width as u64 >= size, "[C05.ctor][C11.width] every accepted size gives a power-of-two number (>= 2, >= size) of counters per row");
             let h: u64 = kani::any();
             s.increment(h);
             let e = s.estimate(h);
-            assert!(e == 1, "[C05.ops][C11.min] one increment of a fresh sketch is estimated as 1");
+            ck!(e == 1, "[C05.ops][C11.min] one increment of a fresh sketch is estimated as 1");
             s.reset();
             s.clear();
-            assert!(s.estimate(h) == 0, "[C11.clear] a cleared sketch estimates 0");
+            ck!(s.estimate(h) == 0, "[C11.clear] a cleared sketch estimates 0");
         }
-        Err(_) => assert!(size == 0, "[C05.ctor] only size 0 is rejected"),
+        Err(_) => ck!(size == 0, "[C05.ctor] only size 0 is rejected"),
     }
 }
